@@ -1,5 +1,3 @@
 package main
 
-func c26(in, out string, shard, of int) {}
-func c22(in, out string, shard, of int) {}
 func c23(in, out string, shard, of int) {}
